@@ -377,7 +377,9 @@ Fixpoint run_stmt (n : nat) (x : stmt) (st : regs) : list bytes * regs :=
       let '(ok, cs) := match_captures ci r (eval_lit subj st) in
       ([if xorb neg ok then TRUE_ else FALSE_], Some cs)
   | SSub glob subj ci r rep =>
-      let rp := eval_lit rep st in
+      (* the replacement literal is NOT interpolated from the registers (repaired: before the fix an earlier =~
+         filled its \1..\9 before sub saw them); its \digits belong to this call *)
+      let rp := unbackslash rep in
       ([(if glob then gsub else sub) ci r (eval_lit subj st) rp], st)
   | SReset => ([], None)
   | SFrame body =>
